@@ -101,6 +101,10 @@ class C06(E1Check):
                 for gates in itertools.product((False, True), repeat=3):
                     for api in (("method", "shortcut"), ("inject", "method")):
                         progs.append({"kind": "multi", "order": order, "pubs": list(pubs), "gates": list(gates), "apis": list(api), "small": False})
+        # a long burst of non-matching publications ahead of the matching one while the waiter is parked
+        for n in (3, 60):
+            for order in ("wp", "pw"):
+                progs.append({"kind": "burst", "n": n, "order": order, "small": False})
         for optional_from in ("component-optional", "outer", "service"):
             for seq in (("M-res",), ("N-type",)):
                 for g in (False, True):
@@ -141,6 +145,14 @@ class C06(E1Check):
                 # not remapped: lands under "default"; a later matching publication releases the waiter
                 pub["start"] = [("add", "RA", "n", "late-match")] if False else None
             kids = [w, pub] if p["order"] == "wp" else [pub, w]
+        elif kind == "burst":
+            w = waiter("w", "start", False, "shortcut")
+            steps2: list = [("gate", "p")]
+            for i in range(p["n"]):
+                steps2.append(("add", "RB", f"other{i}", f"noise{i}"))
+            steps2.append(("add", "RA", "n", "wanted"))
+            pub = {"alias": "p", "children": [], "prepare": None, "start": steps2}
+            kids = [w, pub] if p["order"] == "wp" else [pub, w]
         elif kind == "multi":
             # one component with two requests for different pairs pending at once; published in the given order
             w = {"alias": "w", "children": [], "prepare": None,
@@ -173,14 +185,14 @@ class C06(E1Check):
         return {"alias": "", "children": kids, "prepare": None, "start": None}
 
     def has_match(self, p: dict) -> bool:
-        if p["kind"] == "multi":
+        if p["kind"] in ("multi", "burst"):
             return True
         if p["kind"] == "alias":
             return p["where"] == "start"
         return any(MENU[i][0] for i in p["seq"])
 
     def deadlock_ok(self, program: Any) -> bool:
-        return program["kind"] in ("basic", "alias", "two", "multi") and not self.has_match(program)
+        return program["kind"] in ("basic", "alias", "two", "multi", "burst") and not self.has_match(program)
 
     async def main(self, env: Any, program: dict) -> None:
         from asphalt.core import Context, ResourceNotFound, start_component
@@ -302,8 +314,8 @@ class C06(E1Check):
                 else:
                     fail("false-failure", f"waiter {who} failed with {ev[2]} (matching publication index {match_idx})")
         # completion: with a matching publication every waiter returns and start-up completes
-        if kind in ("basic", "alias", "two", "multi"):
-            waiters = {"basic": ["w"], "alias": ["w"], "two": ["w1", "w2"], "multi": ["wa", "wb"]}[kind]
+        if kind in ("basic", "alias", "two", "multi", "burst"):
+            waiters = {"basic": ["w"], "alias": ["w"], "two": ["w1", "w2"], "multi": ["wa", "wb"], "burst": ["w"]}[kind]
             if self.has_match(program):
                 for w in waiters:
                     if not any(ev[0] == "get-" and ev[1] == w for ev in tr):
